@@ -1,31 +1,63 @@
-(* C01/Refuted.v -- the full routing statement (without body_errors_fatal) is false in the faithful model:
-   known finding body-timeout-misroute (F-C01-1).
+(* C01/Refuted.v -- regression facts about the behaviour BEFORE the fix of finding body-timeout-misroute
+   (F-C01-1).  They are about [step_pre], not about the model of the current code.
 
-   readFrame wraps a failed body read with fmt.Errorf("...%v"), so recv's err.(net.Error) test is false:
-   the error goes to the caller and the receiver keeps reading.  After Conn.Read's five temporary-timeout
-   retries the rest of the body is still to come; it is parsed as frames.  Trace: A (caller 1, stream 5)
-   and B (caller 2, stream 6) are both waiting; the honest server answers A; the body read fails
-   (RecvBodyErr false [6]: not a net.Error, and the rest of A's body is shaped like a frame on stream 6);
-   A is handed the error; the receiver finds B under stream 6 and hands B the content of A's response. *)
-From GocqlV Require Import Lib.Base C01.Model C01.Spec C01.Proofs1.
+   Before the fix readFrame wrapped a failed body read with fmt.Errorf("...%v"), so recv's
+   err.(net.Error) test was false: the error went to the caller and the receiver kept reading.  After
+   Conn.Read's five temporary-timeout retries the rest of the body was still to come and was parsed as
+   frames.  [step_pre] adds that action to the model: [inr resid] is a failed body read that is delivered
+   to the caller while the rest of the body, shaped like frames on the stream ids [resid], stays on the
+   wire.  Trace: A (caller 1, stream 5) and B (caller 2, stream 6) are both waiting; the honest server
+   answers A; the body read fails with the rest of A's body shaped like a frame on stream 6; A is handed
+   the error and releases stream 5; the receiver finds B under stream 6 and hands B the content of A's
+   response.  With the current model (Model.step) no such run exists: C01_response_to_own_request. *)
+From GocqlV Require Import Lib.Base C01.Model C01.Spec.
 
-Definition bad_run : list label :=
-  [Start 1; Alloc 1 5; AddCall 1 0; WriteBegin 1; WriteEnd 1 WOk;
-   Start 2; Alloc 2 6; AddCall 2 0; WriteBegin 2; WriteEnd 2 WOk;
-   SrvAnswer 5 1; RecvHeader; RecvBodyErr false [6]; Deliver 1; Finish 1 true;
-   RecvHeader; RecvBodyOk; Deliver 2].
+Definition step_pre (s : state) (l : label + list Z) : option state :=
+  match l with
+  | inl l0 => step s l0
+  | inr resid =>
+      match rcv s with
+      | RHave c t => Some (with_s2c (with_rcv s (RDeliver c (RBodyErr t))) (map (fun id => (id, t)) resid ++ s2c s))
+      | _ => None
+      end
+  end.
 
-Theorem routing_refuted_after_body_timeout :
-  exists ls s c t, run (init 128) ls = Some s /\ honest (init 128) ls /\ handed (callers s c) t /\ t <> c.
+Fixpoint run_pre (s : state) (ls : list (label + list Z)) : option state :=
+  match ls with
+  | [] => Some s
+  | l :: ls' => match step_pre s l with Some s' => run_pre s' ls' | None => None end
+  end.
+
+(* every SrvAnswer of the run is honest *)
+Fixpoint honest_pre (s : state) (ls : list (label + list Z)) : bool :=
+  match ls with
+  | [] => true
+  | l :: ls' =>
+      (match l with
+       | inl (SrvAnswer id t) => existsb (fun p => (fst p =? id) && (snd p =? t)) (srv s)
+       | _ => true
+       end) && match step_pre s l with Some s' => honest_pre s' ls' | None => true end
+  end.
+
+Definition bad_run : list (label + list Z) :=
+  map inl [Start 1; Alloc 1 5; AddCall 1 0; WriteBegin 1; WriteEnd 1 WOk;
+           Start 2; Alloc 2 6; AddCall 2 0; WriteBegin 2; WriteEnd 2 WOk;
+           SrvAnswer 5 1; RecvHeader]
+  ++ [inr [6]]
+  ++ map inl [Deliver 1; Finish 1 true; RecvHeader; RecvBodyOk; Deliver 2].
+
+Theorem prefix_routing_refuted_after_body_timeout :
+  exists ls s c t, run_pre (init 128) ls = Some s /\ honest_pre (init 128) ls = true /\ handed (callers s c) t /\ t <> c.
 Proof.
-  exists bad_run. eexists. exists 2, 1. split; [vm_compute; reflexivity|]. split; [apply honestb_sound; vm_compute; reflexivity|].
+  exists bad_run. eexists. exists 2, 1. split; [vm_compute; reflexivity|]. split; [vm_compute; reflexivity|].
   split; [vm_compute; reflexivity | discriminate].
 Qed.
 
-(* ... and A's stream id was released although bytes of its response were still to come *)
-Theorem reuse_refuted_after_body_timeout :
-  exists ls s id t, run (init 128) ls = Some s /\ honest (init 128) ls /\ answer_due s id t /\ ~ In (sid (callers s t)) (held s).
+(* ... and A's stream id had been released although bytes of its response were still to come *)
+Theorem prefix_reuse_refuted_after_body_timeout :
+  exists ls s id t, run_pre (init 128) ls = Some s /\ honest_pre (init 128) ls = true /\ answer_due s id t
+                    /\ ~ In (sid (callers s t)) (held s).
 Proof.
-  exists (firstn 15 bad_run). eexists. exists 6, 1. split; [vm_compute; reflexivity|]. split; [apply honestb_sound; vm_compute; reflexivity|].
+  exists (firstn 15 bad_run). eexists. exists 6, 1. split; [vm_compute; reflexivity|]. split; [vm_compute; reflexivity|].
   split; [right; left; vm_compute; auto|]. vm_compute. intuition discriminate.
 Qed.
